@@ -32,10 +32,20 @@ type c39Invoker struct {
 	handle   func(input bin.Encoder) (bin.Encoder, error)
 	requests int
 	log      []string
+	failAt   int // the failAt-th request fails with errC39Injected (0 = never)
 }
 
-func (s *c39Invoker) Invoke(_ context.Context, input bin.Encoder, output bin.Decoder) error {
+var errC39Injected = fmt.Errorf("fake server: injected RPC failure")
+
+func (s *c39Invoker) Invoke(ctx context.Context, input bin.Encoder, output bin.Decoder) error {
+	// as the real invoker: a request on a finished context fails with its error
+	if err := ctx.Err(); err != nil {
+		return err
+	}
 	s.requests++
+	if s.failAt > 0 && s.requests == s.failAt {
+		return errC39Injected
+	}
 	if s.requests > 10000 {
 		return fmt.Errorf("fake server: more than 10000 requests")
 	}
@@ -509,5 +519,86 @@ func TestC39Dialogs(t *testing.T) {
 		}
 		key := fmt.Sprintf("%s/%s/p%d/%v/%x", api, l.kind, page, want, noise)
 		st.Case(key, n > page, fmt.Sprintf("GetDialogs.%s kind=%s N=%d page=%d requests=%d", api, l.kind, n, page, requestsToEnd), classes...)
+	})
+}
+
+// TestC39Interrupted: the same iteration cut short, by a request that fails or
+// by the caller's context ending between two Next calls. What was yielded
+// must be a prefix of the server's list, and the iteration may end without an
+// error only after the last item: a clean end of stream on a proper prefix is
+// a silently truncated history.
+func TestC39Interrupted(t *testing.T) {
+	st := pbt.NewStats("TestC39Interrupted")
+	defer st.Flush()
+	rapid.Check(t, func(t *rapid.T) {
+		n, page := genC39Sizes(t)
+		what := rapid.SampledFrom([]string{"messages", "messages", "dialogs"}).Draw(t, "what")
+		cut := rapid.SampledFrom([]string{"cancel", "cancel", "rpc-error"}).Draw(t, "cut")
+		after := rapid.IntRange(0, n+1).Draw(t, "afterItems") // cancel: after this many items were consumed
+		inv := &c39Invoker{}
+		if cut == "rpc-error" {
+			inv.failAt = rapid.IntRange(1, n/page+3).Draw(t, "failAt")
+		}
+		ctx, cancel := context.WithCancel(context.Background())
+		defer cancel()
+		var want, got []string
+		var iterErr error
+		consume := func(id string) {
+			got = append(got, id)
+			if cut == "cancel" && len(got) == after {
+				cancel()
+			}
+		}
+		if cut == "cancel" && after == 0 {
+			cancel()
+		}
+		raw := tg.NewClient(inv)
+		if what == "messages" {
+			h := &c39History{kind: rapid.SampledFrom([]string{"full", "slice", "channel"}).Draw(t, "kind"), peer: &tg.PeerUser{UserID: 10}}
+			for i := 0; i < n; i++ {
+				h.msgs = append(h.msgs, c39Msg{ID: 2*(n-i) + 5, Date: 1_600_000_000 + (n-i)/2})
+				want = append(want, fmt.Sprint(2*(n-i)+5))
+			}
+			inv.handle = h.handle(inv)
+			it := query.Messages(raw).GetHistory(&tg.InputPeerUser{UserID: 10, AccessHash: 11}).BatchSize(page).Iter()
+			for it.Next(ctx) {
+				consume(fmt.Sprint(it.Value().Msg.GetID()))
+				if len(got) > n+3 {
+					break
+				}
+			}
+			iterErr = it.Err()
+		} else {
+			l := &c39DialogList{kind: rapid.SampledFrom([]string{"full", "slice"}).Draw(t, "kind")}
+			for i := 0; i < n; i++ {
+				l.dlgs = append(l.dlgs, c39Dlg{Kind: 0, ID: int64(100 + i), Date: 1_600_000_000 + 2*(n-i), TopID: 1 + n - i})
+				want = append(want, fmt.Sprintf("u%d", 100+i))
+			}
+			inv.handle = l.handle(inv)
+			it := query.GetDialogs(raw).BatchSize(page).Iter()
+			for it.Next(ctx) {
+				d, _ := it.Value().Dialog.(*tg.Dialog)
+				p, _ := d.Peer.(*tg.PeerUser)
+				consume(fmt.Sprintf("u%d", p.UserID))
+				if len(got) > n+3 {
+					break
+				}
+			}
+			iterErr = it.Err()
+		}
+		if len(got) > len(want) || fmt.Sprint(got) != fmt.Sprint(want[:len(got)]) {
+			t.Fatalf("%s N=%d page=%d cut=%s: yielded %v is not a prefix of the server list %v\nrequests: %s", what, n, page, cut, got, want, strings.Join(inv.log, "; "))
+		}
+		if iterErr == nil && len(got) != len(want) {
+			t.Fatalf("%s N=%d page=%d cut=%s(after %d items / request %d): iteration ended without an error after %d of %d items\nrequests: %s",
+				what, n, page, cut, after, inv.failAt, len(got), len(want), strings.Join(inv.log, "; "))
+		}
+		outcome := "complete"
+		if iterErr != nil {
+			outcome = "error-reported"
+		}
+		st.Case(fmt.Sprintf("%s/%d/%d/%s/%d/%d", what, n, page, cut, after, inv.failAt), iterErr != nil,
+			fmt.Sprintf("%s N=%d page=%d cut=%s after=%d failAt=%d -> %d items, err=%v", what, n, page, cut, after, inv.failAt, len(got), iterErr),
+			"what="+what, "cut="+cut, "outcome="+outcome)
 	})
 }
